@@ -420,7 +420,7 @@ def add_hooks(draw, c, feats):
             c['recognize'] = cl
     ops = []
     pool = ['dashes_to_unders', 'set_default', 'raise_if_has', 'get_missing',
-            'rename', 'word_to_int']
+            'rename', 'word_to_int', 'int_add', 'int_add']
     if 'adversarial' in feats:
         pool += ['to_scalar', 'to_seq', 'set_wrong', 'set_wrong']
     for _ in range(draw(st.integers(0, 2))):
@@ -440,6 +440,11 @@ def add_hooks(draw, c, feats):
             ip = [p['name'] for p in c['params'] if p.get('type') == 'int']
             if ip:
                 ops.append([k, ip[0], [['seven', 7], ['x', 1]]])
+        elif k == 'int_add':
+            # not idempotent (e.g. 1-based in the file, 0-based in memory)
+            ip = [p['name'] for p in c['params'] if p.get('type') == 'int']
+            if ip:
+                ops.append([k, draw(st.sampled_from(ip)), draw(st.sampled_from([-1, 10]))])
         elif k == 'to_scalar':
             ops.append([k, draw(st.sampled_from([['str', 'x'], ['int', 1]]))])
         elif k == 'to_seq':
@@ -449,6 +454,23 @@ def add_hooks(draw, c, feats):
                 [['str', 'wrong'], ['int', 99], ['none'], ['bool', True], ['float', '2.5']]))])
     if ops:
         c['savorize'] = ops
+
+
+def mro_ok(classes):
+    """Python can linearise the hierarchy (abc.ABC bases included)."""
+    import abc
+    built = {}
+    try:
+        for c in classes:
+            if c.get('kind', 'obj') != 'obj':
+                continue
+            bases = tuple(built[b] for b in c.get('bases', []))
+            if c.get('abstract') == 'abc':
+                bases = bases + (abc.ABC,)
+            built[c['name']] = type(c['name'], bases, {})
+    except TypeError:
+        return False
+    return True
 
 
 def add_sweeten(draw, classes, feats):
@@ -559,13 +581,28 @@ def models(draw, feats=(), max_classes=5, doc_type=None):
             continue
         c = {'name': name, 'kind': 'obj', 'bases': [], 'params': []}
         base = None
-        if 'hier' in feats and objs and draw(st.integers(0, 2)) > 0:
+        sibs = []
+        if 'multi' in feats:
+            byn = {x['name']: x for x in classes}
+            sibs = [(a, b) for a in objs for b in objs if a < b and
+                    set(byn[a].get('bases', [])) & set(byn[b].get('bases', []))]
+        if 'hier' in feats and sibs and draw(st.integers(0, 2)) == 0:
+            # a diamond: the new class derives from two classes that share a base
+            base, other = draw(st.sampled_from(sibs))
+            c['bases'] = list(draw(st.permutations([base, other])))
+            by = {x['name']: x for x in classes}
+            for b in c['bases']:
+                for p in by[b]['params']:
+                    if p['name'] not in [q['name'] for q in c['params']]:
+                        c['params'].append(copy.deepcopy(p))
+        elif 'hier' in feats and objs and draw(st.integers(0, 2)) > 0:
             base = draw(st.sampled_from(objs))
             c['bases'] = [base]
             if 'multi' in feats and len(objs) >= 2 and draw(st.integers(0, 4)) == 0:
                 other = draw(st.sampled_from([o for o in objs if o != base]))
                 by = {x['name']: x for x in classes}
-                # only join unrelated classes (no MRO conflicts)
+                # join classes of which neither derives from the other (no MRO
+                # conflicts); they may share an ancestor (a diamond)
                 if base not in descendants({'classes': classes}, other) and \
                         other not in descendants({'classes': classes}, base):
                     c['bases'] = [base, other]
@@ -631,6 +668,8 @@ def models(draw, feats=(), max_classes=5, doc_type=None):
                 c['init_raises'] = ['always', exc]
         if 'hooks' in feats and draw(st.integers(0, 2)) == 0:
             add_hooks(draw, c, feats)
+        if len(c['bases']) > 1 and not mro_ok(classes + [c]):
+            c['bases'] = c['bases'][:1]
         classes.append(c)
         objs.append(name)
     if 'seasoned' in feats and draw(st.integers(0, 2)) == 0:
